@@ -9,6 +9,7 @@
 #include "cntgs/detail/typeTraits.hpp"
 
 #include <iterator>
+#include <vector>
 #include <version>
 
 namespace cntgs::detail
@@ -41,13 +42,24 @@ constexpr auto operator_arrow_produces_pointer_to_iterator_reference_type() noex
     }
 }
 
+// Random access, an lvalue reference type and an operator-> that yields a pointer do not make an iterator contiguous:
+// std::reverse_iterator<T*> and std::deque<T>::iterator have all of that. Before C++20 there is no way to ask, so only
+// iterators that are known to be contiguous qualify.
+#ifdef __cpp_lib_concepts
+template <class I>
+inline constexpr bool CONTIGUOUS_ITERATOR_V = std::contiguous_iterator<I> && detail::HAS_OPERATOR_ARROW<I>;
+#else
+template <class I, class V = typename std::iterator_traits<I>::value_type>
+inline constexpr bool IS_VECTOR_ITERATOR = std::is_same_v<I, typename std::vector<V>::iterator> ||
+                                           std::is_same_v<I, typename std::vector<V>::const_iterator>;
+
+template <class I>
+inline constexpr bool IS_VECTOR_ITERATOR<I, bool> = false;
+
 template <class I>
 inline constexpr bool CONTIGUOUS_ITERATOR_V =
-    detail::IS_DERIVED_FROM<typename std::iterator_traits<I>::iterator_category, std::random_access_iterator_tag> &&
-    std::is_lvalue_reference_v<typename std::iterator_traits<I>::reference> &&
-    std::is_same_v<typename std::iterator_traits<I>::value_type,
-                   detail::RemoveCvrefT<typename std::iterator_traits<I>::reference>> &&
-    detail::operator_arrow_produces_pointer_to_iterator_reference_type<I>();
+    detail::IS_VECTOR_ITERATOR<I> && detail::operator_arrow_produces_pointer_to_iterator_reference_type<I>();
+#endif
 }  // namespace cntgs::detail
 
 #endif  // CNTGS_DETAIL_ITERATOR_HPP
